@@ -161,6 +161,11 @@ pub fn execute(plan: &Plan, ctx: &mut Ctx) {
         }
     }
     let nt = terms.len();
+    for (di, dev) in devs.iter().enumerate() {
+        if let Some(fb) = dev.feedback() {
+            fb.term.set(Some(terms[dev_terms[di][0]]));
+        }
+    }
     if plan.prop == "C16" {
         for spec in &specs {
             if let DevSpec::Axle(n) = spec {
@@ -215,8 +220,9 @@ pub fn execute(plan: &Plan, ctx: &mut Ctx) {
         // validity of indices (after minimisation some ops may dangle)
         let valid = match code {
             "C" => a0 < nt && (op.arg(1) as usize) < nt && a0 != op.arg(1) as usize,
-            "D" | "SS" | "SC" => a0 < nt,
-            "UD" | "MREJ" | "MUERR" | "ENC" | "ENCN" | "ENCE" | "ENCUERR" | "ENCP" => a0 < specs.len(),
+            "D" | "DB" | "SS" | "SC" => a0 < nt,
+            "CB" => a0 < nt && (op.arg(1) as usize) < nt && a0 != op.arg(1) as usize && (op.arg(2) as usize) < nt,
+            "UD" | "FB" | "MREJ" | "MUERR" | "ENC" | "ENCN" | "ENCE" | "ENCUERR" | "ENCP" => a0 < specs.len(),
             _ => true,
         };
         if !valid {
@@ -235,6 +241,101 @@ pub fn execute(plan: &Plan, ctx: &mut Ctx) {
             // (matching, operation) coverage is counted on pure terminal sets only
             ctx.cell("C09", &[nt as i64, matching_sig as i64, op_code_num(code), op.arg(0), op.arg(1)]);
         }
+        // ---- link operations attempted while somebody holds a shared borrow of a terminal they must
+        // write (DB k: disconnect k while its partner is being read; CB a b h: connect(a, b) while h is
+        // being read). RefCell refuses the write with a panic; what the property demands is that the
+        // links still form a symmetric matching afterwards - one of the states a link operation passes
+        // through between whole steps, never half a link.
+        if code == "DB" || code == "CB" {
+            let (held_ix, involved): (Option<usize>, Vec<usize>) = if code == "DB" {
+                (model[a0].partner.filter(|&p| p != a0), vec![a0])
+            } else {
+                (Some(op.arg(2) as usize), vec![a0, op.arg(1) as usize])
+            };
+            let r = {
+                let _held = held_ix.map(|h| terms[h].borrow());
+                guarded(|| {
+                    if code == "DB" {
+                        terms[a0].borrow_mut().disconnect();
+                    } else {
+                        connect(terms[a0], terms[op.arg(1) as usize]);
+                    }
+                })
+            };
+            // candidate matchings: the old one, the old one minus the links of the involved terminals (in
+            // any combination), the completed operation
+            let unlink = |m: &mut Vec<TM>, x: usize| {
+                if let Some(p) = m[x].partner {
+                    m[p].partner = None;
+                    m[x].partner = None;
+                }
+            };
+            let mut done = model.clone();
+            for &x in &involved {
+                unlink(&mut done, x);
+            }
+            if code == "CB" {
+                done[involved[0]].partner = Some(involved[1]);
+                done[involved[1]].partner = Some(involved[0]);
+            }
+            let mut cands: Vec<Vec<TM>> = Vec::new();
+            if r.is_ok() {
+                cands.push(done);
+            } else {
+                ctx.count("fault.link_op_refused_by_live_borrow");
+                ctx.count("reach.link_op_refused_by_live_borrow");
+                cands.push(model.clone());
+                for mask in 1..(1u32 << involved.len()) {
+                    let mut m = model.clone();
+                    for (j, &x) in involved.iter().enumerate() {
+                        if mask & (1 << j) != 0 {
+                            unlink(&mut m, x);
+                        }
+                    }
+                    cands.push(m);
+                }
+                cands.push(done);
+            }
+            let s2: Vec<TSnap> = terms.iter().map(|t| snap_term(t)).collect();
+            let mut fits = false;
+            for m in &cands {
+                let before = ctx.violations.len();
+                for k in 0..nt {
+                    check_terminal_reads(ctx, i, code, k, m, &s2);
+                }
+                let clean = ctx.violations.len() == before;
+                ctx.violations.truncate(before);
+                if clean {
+                    fits = true;
+                    break;
+                }
+            }
+            if !fits {
+                let reads: Vec<String> = s2.iter().enumerate().map(|(k, s)| format!("t{}: own {} reads {}", k, show_s(&s.own_s), s.rd_s.show())).collect();
+                viol2(ctx, &["C09"], "half_link_after_refused_op", if code == "DB" { "disconnect" } else { "connect" }, format!("op {} ({} {:?}): after the refused call the reads fit no symmetric matching the call passes through ({})", i, code, op.a, reads.join("; ")));
+            }
+            // back to a known matching: unlink everything the call could have touched, from both ends
+            let mut touched: Vec<usize> = involved.clone();
+            for &x in &involved {
+                if let Some(p) = model[x].partner {
+                    touched.push(p);
+                }
+            }
+            for &x in &touched {
+                if guarded(|| terms[x].borrow_mut().disconnect()).is_err() {
+                    viol2(ctx, &["C09"], "panic", "disconnect", format!("op {} ({}): disconnect({}) after the refused call panicked", i, code, x));
+                    return;
+                }
+            }
+            for &x in &involved {
+                unlink(&mut model, x);
+            }
+            if code == "CB" && r.is_ok() {
+                // (completed: and then undone by the clean-up above)
+            }
+            knows.clear();
+            newest = None;
+        }
         let mut motor_before: Option<usize> = None;
         if code == "UD" {
             match &*devs[a0] {
@@ -242,6 +343,7 @@ pub fn execute(plan: &Plan, ctx: &mut Ctx) {
                 _ => {}
             }
         }
+        let fb_wrote_before = if code == "UD" { devs[a0].feedback().map(|f| f.wrote.get()) } else { None };
         let mut enc_updates_before = 0;
         let mut enc_had_pending = false;
         if code == "UD" {
@@ -287,6 +389,15 @@ pub fn execute(plan: &Plan, ctx: &mut Ctx) {
                     None
                 }
                 "UD" => Some(norm_unit(&devs[a0].update())),
+                // FB d mode t p v a: from now on the inner object of wrapper d talks to the wrapper's own
+                // terminal from inside the calls the wrapper makes on it (see dev_arena::Feedback)
+                "FB" => {
+                    if let Some(fb) = devs[a0].feedback() {
+                        fb.mode.set(op.arg(1) as u8);
+                        fb.datum.set((op.arg(2), [op.arg(3) as u32, op.arg(4) as u32, op.arg(5) as u32]));
+                    }
+                    None
+                }
                 "MREJ" => {
                     if let Dev::Act(_, h) | Dev::Pid(_, h) = &*devs[a0] {
                         h.reject.set(if op.arg(1) == 0 { None } else { Some(op.arg(1) as u8) });
@@ -416,8 +527,8 @@ pub fn execute(plan: &Plan, ctx: &mut Ctx) {
             }
             _ => {}
         }
-        if matches!(code, "SS" | "SC" | "ENC" | "ENCP") {
-            let t = op.arg(1);
+        if matches!(code, "SS" | "SC" | "ENC" | "ENCP" | "FB") {
+            let t = if code == "FB" { op.arg(2) } else { op.arg(1) };
             tmin = Some(tmin.map_or(t, |m: i64| m.min(t)));
             tmax = Some(tmax.map_or(t, |m: i64| m.max(t)));
         }
@@ -458,11 +569,24 @@ pub fn execute(plan: &Plan, ctx: &mut Ctx) {
                     }
                 }
             }
+            // the inner object of a wrapper wrote a state into the wrapper's terminal during this update
+            let fb_wrote: Option<(i64, [u32; 3])> = match (devs[d].feedback(), fb_wrote_before) {
+                (Some(f), Some(b)) if f.wrote.get() > b => Some(f.datum.get()),
+                _ => None,
+            };
+            if let Some(f) = devs[d].feedback() {
+                if f.mode.get() == 1 && fb_wrote.is_some() {
+                    ctx.count("reach.inner_writes_terminal_from_update");
+                }
+                if f.mode.get() == 2 {
+                    ctx.count("reach.inner_reads_terminal_from_calls");
+                }
+            }
             let tie = if unmodelled {
                 ctx.count("n.unmodelled_follower_update");
                 false
             } else {
-                check_update(ctx, plan, i, spec, ts, &pre, &snaps, ret, &devs[d], motor_before, enc_updates_before, enc_had_pending, twins.get_mut(&d))
+                check_update(ctx, plan, i, spec, ts, &pre, &snaps, ret, &devs[d], motor_before, enc_updates_before, enc_had_pending, twins.get_mut(&d), fb_wrote)
             };
             if tie {
                 // different commands with equal stamps met at this device (a kinematic loop
@@ -594,6 +718,9 @@ fn op_code_num(code: &str) -> i64 {
         "ENCE" => 10,
         "ENCUERR" => 11,
         "ENCP" => 12,
+        "DB" => 13,
+        "CB" => 14,
+        "FB" => 15,
         _ => 0,
     }
 }
@@ -708,6 +835,7 @@ fn check_update(
     enc_updates_before: u64,
     enc_had_pending: bool,
     twin: Option<&mut PidTwin>,
+    fb_wrote: Option<(i64, [u32; 3])>,
 ) -> bool {
     let mut tie_seen = false;
     let reads: Vec<Option<(i64, [u32; 3])>> = ts.iter().map(|&k| rd_state(&pre[k].rd_s)).collect();
@@ -1025,7 +1153,9 @@ fn check_update(
             if uerr.is_some() {
                 ctx.count("fault.inner_update_err");
             }
-            if post[k].own_s != pre[k].own_s || post[k].own_c != pre[k].own_c {
+            // (an inner object that itself reports back on the terminal is the harness's doing)
+            let want_s = if fb_wrote.is_some() { fb_wrote } else { pre[k].own_s };
+            if post[k].own_s != want_s || post[k].own_c != pre[k].own_c {
                 viol2(ctx, &["C20"], "actuator_touches_terminal", comp, format!("op {}: actuator wrapper changed its terminal's own slots", i));
             }
         }
@@ -1040,21 +1170,22 @@ fn check_update(
             if h.pending.borrow().is_none() && enc_had_pending {
                 ctx.count("reach.encoder_reading_changes_in_update");
             }
+            let untouched = if fb_wrote.is_some() { fb_wrote } else { pre[k].own_s };
             let (want_slot, want_ret) = match (h.update_err.get(), cur) {
                 (Some(e), _) => {
                     ctx.count("fault.inner_update_err");
-                    (pre[k].own_s, Some(er_of(e)))
+                    (untouched, Some(er_of(e)))
                 }
                 (None, Out::Err(e)) => {
                     ctx.count("fault.inner_get_err");
-                    (pre[k].own_s, Some(e))
+                    (untouched, Some(e))
                 }
                 (None, Out::None) => {
                     ctx.count("fault.inner_absent");
-                    (pre[k].own_s, None)
+                    (untouched, None)
                 }
                 (None, Out::Some(t, Val::S(s))) => (Some((t, s)), None),
-                _ => (pre[k].own_s, None),
+                _ => (untouched, None),
             };
             if post[k].own_s != want_slot {
                 viol2(ctx, &["C20"], "encoder_relay", comp, format!("op {}: terminal own state is {} but the inner getter delivered {} (slot before: {})", i, show_s(&post[k].own_s), cur.show(), show_s(&pre[k].own_s)));
